@@ -393,12 +393,11 @@ theorem codec_names_are_the_tags :
        Codec.nParentKeyMeta ++ ",omitempty".toList] := by decide
 
 /-- shape of `cryptoFunc.Encrypt` / `Decrypt` / the cipher factory / the static KMS (which applies the
-same AEAD under the master key): the model's branches and slice positions mirror these. -/
+same AEAD under the master key): the model's branches mirror these; WHERE the nonce and tag sit is
+not a syntactic fact but checked behaviourally on every run (raw AEAD correspondence, both directions). -/
 theorem aead_shape_matches :
     Generated.Fmt.cryptoEncryptSkeleton = Expected.Fmt.cryptoEncryptSkeleton ∧
-    Generated.Fmt.cryptoEncryptSlices = Expected.Fmt.cryptoEncryptSlices ∧
     Generated.Fmt.cryptoDecryptSkeleton = Expected.Fmt.cryptoDecryptSkeleton ∧
-    Generated.Fmt.cryptoDecryptSlices = Expected.Fmt.cryptoDecryptSlices ∧
     Generated.Fmt.aesGCMCipherFactorySkeleton = Expected.Fmt.aesGCMCipherFactorySkeleton ∧
     Generated.Fmt.staticKMSEncryptKeySkeleton = Expected.Fmt.staticKMSEncryptKeySkeleton ∧
     Generated.Fmt.staticKMSDecryptKeySkeleton = Expected.Fmt.staticKMSDecryptKeySkeleton ∧
